@@ -339,3 +339,18 @@ def make_request_handler(rfile, wfile, config, tls=False, addr=("10.9.8.7", 4321
     h.client_address = addr
     h.server = make_server(config)
     return h
+
+
+def init_encodings_like_server():
+    """What initialization.init_mimetypes does to the encodings map at start-up (the TAL handler
+    relies on the '.tal' pseudo-encoding); the types map itself is left at the stdlib default."""
+    import mimetypes
+
+    mimetypes.init()
+    enc = eval(load_config().get("pygopherd", "encoding"), {"mimetypes": mimetypes})
+    mimetypes.encodings_map.clear()
+    for k, v in enc:
+        mimetypes.encodings_map[k] = v
+
+
+init_encodings_like_server()
